@@ -215,6 +215,13 @@ func c1DropFuncs(src string) string {
 				changed = true
 				continue
 			}
+			// type declarations that nothing refers to
+			if gd, ok := d.(*ast.GenDecl); ok && gd.Tok == token.TYPE && len(gd.Specs) == 1 {
+				if ts, ok := gd.Specs[0].(*ast.TypeSpec); ok && used[ts.Name.Name] <= 1 {
+					changed = true
+					continue
+				}
+			}
 			nd = append(nd, d)
 		}
 		f.Decls = nd
